@@ -27,6 +27,12 @@
 (* TLC checks Impl => Property for every history of <= MaxCalls calls on   *)
 (* every shape of the family below.  A history ends at its first failing   *)
 (* call (torch frees part of the graph before failing; not modelled).      *)
+(*                                                                         *)
+(* The family: skeletons (trunk / heads layouts) x which heads are         *)
+(* PARAMETER-FREE (FreeSets: the loss of such a head is computed from the  *)
+(* features alone, tasks_params[i] = [], in any position; its sweep        *)
+(* loss_i -> features still executes - and may free - the head's nodes)    *)
+(* x which ops save tensors (patterns).                                    *)
 (***************************************************************************)
 EXTENDS Integers, Sequences, FiniteSets, TLC, Json
 
@@ -34,6 +40,7 @@ CONSTANTS MaxCalls,      \* length of the histories
           Ks,            \* parallel_chunk_size values, 0 = None
           SkelIds,       \* which skeletons of the family
           AllPatterns,   \* TRUE: every add/mul assignment; FALSE: four representative ones
+          FreeSets,      \* sets of head positions made parameter-free (positions > #heads are ignored)
           TrackHist,     \* FALSE: the history is not part of the state (model check only)
           SampleMod, SamplePick
 
@@ -115,8 +122,6 @@ PatternsOf(sk) ==
           SumSeq([j \in 1..n |-> IF j % 2 = 1 THEN Pow2(j - 1) ELSE 0]),
           SumSeq([j \in 1..n |-> IF j % 2 = 0 THEN Pow2(j - 1) ELSE 0])}
 
-Shapes == UNION {{Resolve(Skel(id), p) : p \in PatternsOf(Skel(id))} : id \in SkelIds}
-
 Nodes(sh)    == 1..Len(sh.g)
 Kids(sh, n)  == Range(sh.g[n].c)
 Saves(sh, n) == sh.g[n].k = "mul"
@@ -175,6 +180,29 @@ MtlOK(sh) == /\ \A i, j \in 1..NL(sh) : i # j => HeadOf(sh, i) \cap HeadOf(sh, j
              \* (mtl_backward would count that path twice), and each is used by some loss
              /\ \A f1, f2 \in sh.feats : f1 # f2 => f2 \notin Desc(sh, {f1}, {})
              /\ sh.feats \subseteq Desc(sh, LossSet(sh), {})
+
+\* ---- parameter-free heads.  StripHeads(sk, H): the heads at the positions H lose their own
+\* parameters - every use of one of them is replaced by a use of the (first) feature the head is
+\* computed from, so the head keeps its ops (and their saved tensors); the former parameters stay in
+\* the graph as unused leaves; tasks_params of such a head is empty.
+MinOf(X) == CHOOSE x \in X : \A y \in X : x <= y
+StripHeads(sk, H) ==
+    LET HH         == H \cap (1..Len(sk.losses))
+        gone       == UNION {sk.taskp[i] : i \in HH}
+        OwnerOf(p) == CHOOSE i \in HH : p \in sk.taskp[i]
+        FeatOf(i)  == MinOf(sk.feats \cap Desc(sk, {sk.losses[i]}, {}))
+        Sub(c)     == IF c \in gone THEN FeatOf(OwnerOf(c)) ELSE c
+    IN  IF HH = {} THEN sk
+        ELSE [sk EXCEPT !.g = [n \in 1..Len(sk.g) |->
+                                 [sk.g[n] EXCEPT !.c = [j \in 1..Len(sk.g[n].c) |-> Sub(sk.g[n].c[j])]]],
+                        !.taskp = [i \in 1..Len(sk.taskp) |-> IF i \in HH THEN {} ELSE sk.taskp[i]]]
+
+FreeHeads(sh) == {i \in 1..NL(sh) : sh.taskp[i] = {}}
+
+\* the family of shapes: skeleton x parameter-free heads x saving pattern.  A stripped skeleton is kept
+\* only if mtl_backward can be called on it (the skeletons outside its universe exist for B and T)
+Variants(id) == {sk \in {StripHeads(Skel(id), H) : H \in FreeSets} : sk = Skel(id) \/ MtlOK(sk)}
+Shapes == UNION {UNION {{Resolve(sk, p) : p \in PatternsOf(sk)} : sk \in Variants(id)} : id \in SkelIds}
 
 \* (roots, targets) pairs offered to backward / torch.autograd.backward
 PairsB(sh) == { <<LossSet(sh), sh.shared \cup AllTaskP(sh)>>,
@@ -269,6 +297,7 @@ CallCode(c) == (CASE c.fn = "B" -> 1 [] c.fn = "M" -> 2 [] OTHER -> 3)
                + 13 * SumSeq([i \in 1..Len(S.g) |-> IF i \in c.targets THEN i * i ELSE 0])
 ScnHash == SumSeq([i \in 1..Len(hist) |-> (2 * i + 1) * CallCode(hist[i].call)])
            + 3 * SumSeq([i \in 1..Len(S.g) |-> IF S.g[i].k = "mul" THEN i ELSE 0]) + Len(S.g)
+           + 19 * SumSeq([i \in 1..NL(S) |-> IF i \in FreeHeads(S) THEN i ELSE 0])
 
 Scenario == [graph |-> S.g, feats |-> S.feats, losses |-> S.losses, taskp |-> S.taskp, shared |-> S.shared,
              mtlok |-> MtlOK(S), saving |-> {n \in Nodes(S) : Saves(S, n)}, hist |-> hist]
